@@ -285,22 +285,26 @@ def show_hist(ctx, h):
   return f"[{show_hist(ctx, h[1])}].merge_into([{show_hist(ctx, h[2])}])"
 
 
-def op_mechanism(ctx, hist, real_inputs):
-  """Mechanism string of a disagreement: the operation plus the shape of its inputs."""
-  k = hist[0]
-
-  def shape(s):
-    # pylint: disable=protected-access
-    parts = []
-    for n in sorted(s._locals):
-      var = s._locals[n]
-      conds = "conditioned" if any(b.condition is not ctx.C.TRUE for b in var.bindings) else "unconditioned"
-      parts.append(("block-conditioned " if n in s._locals_with_block_condition else "explicit ") + conds)
-    c = "TRUE" if s._condition is ctx.C.TRUE else ("FALSE" if s._condition is ctx.C.FALSE else "non-trivial")
-    return f"state(condition {c}; locals: {', '.join(sorted(set(parts))) or 'none'})"
+def op_mechanism(ctx, hist, real_inputs, diff):
+  """Mechanism string of a disagreement: the operation, the direction, and how the
+  differing name is held by each input state."""
+  # pylint: disable=protected-access
   names = {"store": "store_local(value)", "copy": "store_local(load_local)", "cond": "with_condition",
            "mergeN": "merge_into(None)", "merge": "merge_into", "new": "BlockState(...)"}
-  return f"{names[k]} on " + " and ".join(shape(s) for s in real_inputs)
+  n = diff["name"] if diff else None
+  direction = ("real state has a value the model excludes" if diff and diff["real_has_value"]
+               else "real state lacks a value the model includes")
+
+  def held(s):
+    if n not in s._locals:
+      return "absent"
+    return "block-conditioned" if n in s._locals_with_block_condition else "explicitly conditioned"
+  parts = [f"{held(s)} in {who}" for s, who in zip(real_inputs, ("self", "other"))]
+  same = ""
+  if len(real_inputs) == 2 and all(n in s._locals for s in real_inputs):
+    if real_inputs[0]._locals[n] == real_inputs[1]._locals[n]:
+      same = " (same variable in both)"
+  return f"{names[hist[0]]}: {direction}; the name is " + " and ".join(parts) + same
 
 
 def compare(ctx, real, model, hist, inputs, what="den(real) differs from the model after"):
@@ -317,7 +321,7 @@ def compare(ctx, real, model, hist, inputs, what="den(real) differs from the mod
       ctx.count("block_condition_set_not_subset_of_locals(observed)")
     return True
   diff = M.first_difference(d_real, d_model)
-  ctx.viol(f"{what} {op_mechanism(ctx, hist, inputs)}",
+  ctx.viol(f"{what} {op_mechanism(ctx, hist, inputs, diff)}",
            history=hist, shown=show_hist(ctx, hist), real=repr(real), difference=diff)
   return False
 
@@ -358,7 +362,8 @@ def apply_unary(ctx, node, op):
              history=node.hist, operation=[str(x) for x in op[:3]], error=repr(e))
     return None
   ctx.count("op_" + k)
-  compare(ctx, real, model, hist, inputs)
+  if not compare(ctx, real, model, hist, inputs):
+    return None          # never explore from a state that already disagrees with its model
   return Node(real, model, hist)
 
 
@@ -372,7 +377,8 @@ def apply_merge(ctx, a, b):
   hist = ["merge", a.hist, b.hist]
   model = a.model.merge(b.model)
   ctx.count("op_merge")
-  compare(ctx, real, model, hist, [a.real, b.real])
+  if not compare(ctx, real, model, hist, [a.real, b.real]):
+    return None
   return Node(real, model, hist)
 
 
@@ -430,8 +436,8 @@ def starts(ctx):
     h = ["new", init]
     real = replay_hist(ctx, h)
     nd = Node(real, M.Model.new(init), h)
-    compare(ctx, real, nd.model, h, [])
-    out[M.state_key(real)] = nd
+    if compare(ctx, real, nd.model, h, []):
+      out[M.state_key(real)] = nd
   return out
 
 
